@@ -1,6 +1,17 @@
-use crate::{DbIndex, LuaType, get_real_type};
+use crate::{DbIndex, LuaType, LuaTypeDeclId, get_real_type};
 
 pub fn remove_type(db: &DbIndex, source: LuaType, removed_type: LuaType) -> Option<LuaType> {
+    remove_type_inner(db, source, removed_type, &mut Vec::new())
+}
+
+/// `expanding`: the aliases whose origin union is being walked. A recursive alias
+/// (`---@alias R R | string`) contains itself; it is expanded once and then kept as it is.
+fn remove_type_inner(
+    db: &DbIndex,
+    source: LuaType,
+    removed_type: LuaType,
+    expanding: &mut Vec<LuaTypeDeclId>,
+) -> Option<LuaType> {
     if source == removed_type {
         match source {
             LuaType::IntegerConst(_) => return Some(LuaType::Integer),
@@ -76,7 +87,7 @@ pub fn remove_type(db: &DbIndex, source: LuaType, removed_type: LuaType) -> Opti
                 if type_decl.is_alias()
                     && let Some(alias_ref) = get_real_type(db, real_type)
                 {
-                    return remove_type(db, alias_ref.clone(), removed_type);
+                    return remove_type_inner(db, alias_ref.clone(), removed_type, expanding);
                 }
 
                 // 需要对`userdata`进行特殊处理
@@ -134,17 +145,30 @@ pub fn remove_type(db: &DbIndex, source: LuaType, removed_type: LuaType) -> Opti
     }
 
     if let LuaType::Union(u) = &real_type {
+        let alias_id = match &source {
+            LuaType::Ref(id) if !matches!(real_type, LuaType::Ref(_)) => Some(id.clone()),
+            _ => None,
+        };
+        if let Some(id) = &alias_id {
+            if expanding.contains(id) {
+                return Some(source.clone());
+            }
+            expanding.push(id.clone());
+        }
         let types = u
             .into_vec()
             .iter()
-            .filter_map(|t| remove_type(db, t.clone(), removed_type.clone()))
+            .filter_map(|t| remove_type_inner(db, t.clone(), removed_type.clone(), expanding))
             .collect::<Vec<_>>();
+        if alias_id.is_some() {
+            expanding.pop();
+        }
         return Some(LuaType::from_vec(types));
     } else if let LuaType::Union(u) = &removed_type {
         let types = u
             .into_vec()
             .iter()
-            .filter_map(|t| remove_type(db, real_type.clone(), t.clone()))
+            .filter_map(|t| remove_type_inner(db, real_type.clone(), t.clone(), expanding))
             .collect::<Vec<_>>();
         return Some(LuaType::from_vec(types));
     }
